@@ -1092,7 +1092,7 @@ func (w *jobWorld) onJobWrite(wr sim.Write) {
 			}
 		}
 		// C10: the write that makes a non-deleting job finished.
-		if old.Status.Condition.Finished == nil && new.Status.Condition.Finished != nil {
+		if nf := new.Status.Condition.Finished; nf != nil && (old.Status.Condition.Finished == nil || old.Status.Condition.Finished.Result != nf.Result) {
 			w.Count("C10.finish-write")
 			fin := new.Status.Condition.Finished
 			if new.DeletionTimestamp == nil {
